@@ -19,7 +19,13 @@ const SMALL: &[&str] = &["0", "1", "2", "3", "5", "10", "-1", "-2", "1.5", "7", 
 const STRS: &[&str] = &[
     "\"\"", "\"a\"", "\"ab\"", "\"abc\"", "\"a,b\"", "\"x y\"", "\"é\"", "\"日本\"", "\"😀\"", "\"a\\nb\"", "\"\\u00e9\"",
     "\"1\"", "\"[1,2]\"", "\"{\\\"a\\\":1}\"", "\"k\"", "\"%Y\"", "\"YWJj\"", "\"a*\"", "\"(a)(b)?\"", "\"\\\\d+\"", "\"g\"",
-    "\"\\ud83d\"", "\"\\u0000\"", "\"１２\"",
+    "\"\\ud83d\"", "\"\\u0000\"", "\"１２\"", "\"[1,\"", "\"{\\\"a\\\"\"", "\"nan\"", "\"1e1000\"", "\"0x10\"", "\" 1 \"", "\"-\"",
+    "\"2015-03-05T23:51:47Z\"", "\"%Y-%m-%dT%H:%M:%SZ\"", "\"(?<x>a)|b\"", "\"gx\"", "\"a\\tb\"",
+];
+const LITERALS: &[&str] = &[
+    "[[1,2],[3]]", "[{\"key\":\"a\",\"value\":1}]", "{\"a\":{\"b\":[1,2,{\"c\":null}]}}", "[1,[2,[3,[4]]]]", "[\"a\",\"b\"]", "[3,1,2]",
+    "[[[0],1],[[0]]]", "{\"a\":1,\"b\":2}", "[{\"name\":\"n\",\"v\":2}]", "[[0,\"a\"],[1,\"b\"]]", "[null,true,1,\"a\",[],{}]", "[65,233,128512]",
+    "[2015,2,5,23,51,47,4,63]", "{\"key\":null}", "[[],[1]]", "[{\"a\":1},{\"a\":2}]",
 ];
 const FIELDS: &[&str] = &["a", "b", "c", "k", "é", "a_b", "x1"];
 const ZERO_ARG: &[&str] = &[
@@ -175,7 +181,13 @@ impl<'a> ProgGen<'a> {
                 }
                 ".".into()
             }
-            7 => "[]".into(),
+            7 => {
+                if self.rng.chance(1, 2) {
+                    "[]".into()
+                } else {
+                    (*self.rng.pick(LITERALS)).to_string()
+                }
+            }
             8 => "{}".into(),
             _ => (*self.rng.pick(ZERO_ARG)).to_string(),
         }
